@@ -229,6 +229,18 @@ def run(rep, tier, seed):
               ("bin", "MINUS", ("id", "d"), ("un", "UNARY_MINUS", ("dbl", "1e-05"))), ("un", "NOT", ("un", "NOT", ("id", "b")))]:
         items.append(("typed", t))
         items.append(("raw", t))
+    # both nestings of every pair of binary operators of one precedence level (the printer must parenthesise exactly
+    # the nesting the grammar's associativity does not give)
+    by_level = {}
+    for k, (lv, _) in G.BIN.items():
+        by_level.setdefault(lv, []).append(k)
+    for lv, ks in sorted(by_level.items()):
+        for k1 in ks:
+            for k2 in ks:
+                for a, b, c in ((("id", "i"), ("id", "j"), ("id", "k")), (("id", "d"), ("id", "e"), ("dbl", "2.5")), (("int", "2"), ("id", "i"), ("int", "3"))):
+                    items.append(("raw", ("bin", k2, ("bin", k1, a, b), c)))
+                    items.append(("raw", ("bin", k1, a, ("bin", k2, b, c))))
+                    items.append(("raw", ("bin", k1, ("bin", k2, ("bin", k1, a, b), c), ("bin", k2, a, c))))
     # untyped trees: accepted by the expression parser (no diagnostics) though not necessarily well typed
     for _ in range(15000 if quick else 250000):
         items.append(("raw", ug.tree(rng.choice([2, 3, 4]))))
